@@ -4,7 +4,7 @@ CONSTANTS
   Keys = {"density", "note"}
   NV = 2
   MaxHeap = 2
-  Isos = {1}
+  Isos = {1, 2}
   Bases = {"mass", "volume"}
   PropMaps <- MCPropMaps
   PropChoices <- MCPropMaps
